@@ -217,9 +217,13 @@ func body(c cfg, x *explore.X) {
 			return
 		}
 		p := &px.Probe{NameV: o.name}
-		declared := c.when != "update-inputs"
+		declared := c.when != "update-inputs" && c.when != "shrink-inputs"
 		if declared {
 			p.InputsV = ctrlInputs
+		}
+		if c.when == "shrink-inputs" {
+			// starts with an additional by-ID input on the same type and drops it in its first reconcile
+			p.InputsV = append(append([]controller.Input(nil), ctrlInputs...), inSpec{tInt, "pinned", controller.InputStrong}.input())
 		}
 		p.OnEvent = func(ctx context.Context, r controller.Runtime, n int) error {
 			if !declared {
@@ -446,6 +450,7 @@ func build(tier string) []explore.Scenario {
 	add(cfg{name: "weak-kind+destroy-ready-id-b/update-a", inputs: []inSpec{{tInt, "", w}, {tInt, "b", dr}}, pre: []wop{"create a", "create b"}, script: []wop{"update a"}, prologue: true, bounds: b0})
 	add(cfg{name: "weak-kind/after-run", inputs: []inSpec{{tInt, "", w}}, when: "after-run", pre: pre, script: []wop{"update a", "update a"}, prologue: true, bounds: b0})
 	add(cfg{name: "weak-kind/update-inputs", inputs: []inSpec{{tInt, "", w}}, when: "update-inputs", pre: pre, script: []wop{"update a", "create b"}, prologue: true, bounds: b0})
+	add(cfg{name: "weak-kind/shrink-inputs", inputs: []inSpec{{tInt, "", w}}, when: "shrink-inputs", pre: pre, script: []wop{"update a", "create b"}, prologue: true, bounds: b0})
 	add(cfg{name: "weak-kind/startup-race", inputs: []inSpec{{tInt, "", w}}, pre: pre, script: []wop{"update a"}, prologue: false, bounds: b0})
 	add(cfg{name: "weak-kind/startup-race/cached", inputs: []inSpec{{tInt, "", w}}, cached: true, pre: pre, script: []wop{"update a"}, prologue: false, bounds: b0})
 	add(cfg{name: "weak-kind/after-run/startup-race", inputs: []inSpec{{tInt, "", w}}, when: "after-run", pre: pre, script: []wop{"update a"}, prologue: false, bounds: b0})
